@@ -48,7 +48,7 @@ MentionsBox(e) == e.k = "box" \/ \E q \in SubExprs(e) : q.k = "box"
 RECURSIVE ParamsIn(_)
 ParamsIn(e) == (IF e.k = "param" THEN {e.name} ELSE {}) \cup UNION {ParamsIn(q) : q \in SubExprs(e) \ {e}}
 
-\* one field: compact attribute or Compact<..> type => flag + inner type; Box flag iff the declared type mentions Box
+\* one field: compact attribute or Compact<..> type => flag + inner type; Box flag iff the declared type mentions Box and the field is not compact
 EField(P, S, d, f, vis) ==
   LET top == IF f.ty.k \in {"box", "cow"} THEN f.ty.of ELSE f.ty     \* one transparent layer at the top is what the wire form erases
       RECURSIVE Strip(_)
@@ -57,7 +57,7 @@ EField(P, S, d, f, vis) ==
       isCompact == f.compact \/ core.k = "compact"
       inner == IF core.k = "compact" THEN core.of ELSE core
       t == ETree(P, S, d, inner)
-  IN [name |-> f.name, vis |-> vis, ty |-> IF MentionsBox(f.ty) THEN BoxTree(S, t) ELSE t,
+  IN [name |-> f.name, vis |-> vis, ty |-> IF MentionsBox(f.ty) /\ ~isCompact THEN BoxTree(S, t) ELSE t,     \* a compact position is never boxed
       compact |-> isCompact /\ S.codec, skip |-> FALSE, attrs |-> <<>>]
 
 RealSrcFields(fs) == SelectSeq(fs, LAMBDA f : f.ty.k # "phantom")
